@@ -289,6 +289,72 @@ func (c *Ctx) panicDischargers(r *Report, reach map[*ssa.Function]bool) []panicD
 			}
 			return fmt.Sprintf("entry-rooted type flow: every in-module call of the constructor with operator %s passes a %s in that position", opConst, want), true
 		},
+		// LIST-CTX: the List branch of the general constructor
+		func(c *Ctx, r *Report, s *panicSite, atoms []Atom) (string, bool) {
+			general := c.pkgFunc(pkgExpr, "Expr")
+			if s.fn != general {
+				return "", false
+			}
+			isList := false
+			for _, a := range atoms {
+				if a.Kind == "cmp" && a.Subj == "$1" && a.Op == "==" && a.Val == "expr.List" {
+					isList = true
+				}
+			}
+			if !isList || !strings.Contains(s.key, ".([]any)[") {
+				return "", false
+			}
+			// every in-module construction of a List node passes exactly one []*Expression, so
+			// left.([]any) has length 1, its element is a []*Expression and the element-wise loop
+			// after the early return is dead
+			n := 0
+			for _, f := range c.Funcs {
+				if !inLib(f) {
+					continue
+				}
+				for _, b := range f.Blocks {
+					for _, in := range b.Instrs {
+						call, ok := in.(*ssa.Call)
+						if !ok || call.Call.StaticCallee() == nil || fnPkgPath(call.Call.StaticCallee()) != pkgExpr {
+							continue
+						}
+						callee := call.Call.StaticCallee()
+						ops := c.ctorOperator(callee)
+						if callee == general {
+							if k, ok := c.resolve(call.Call.Args[1], nil).(*ssa.Const); ok {
+								ops = []string{c.constName(k)}
+							}
+						}
+						if len(ops) != 1 || ops[0] != "expr.List" {
+							continue
+						}
+						if callee == general {
+							// the thin wrapper LIST(a ...any) → Expr(a, List): a is its variadic slice
+							if p, ok := c.resolve(call.Call.Args[0], nil).(*ssa.Parameter); ok && f.Signature.Variadic() && p == f.Params[len(f.Params)-1] {
+								continue
+							}
+							return "", false
+						}
+						n++
+						lit, ok := c.sliceLiteral(call.Call.Args[len(call.Call.Args)-1], nil)
+						if !ok || len(lit) != 1 {
+							return "", false
+						}
+						st := lit[0].Type()
+						if mi, ok := lit[0].(*ssa.MakeInterface); ok {
+							st = mi.X.Type()
+						}
+						if typeStr(st) != "[]*expr.Expression" {
+							return "", false
+						}
+					}
+				}
+			}
+			if n == 0 {
+				return "", false
+			}
+			return fmt.Sprintf("LIST-CTX: all %d in-module constructions of a List node pass exactly one []*expr.Expression (so left.([]any) has one element, of that type, and the element-wise loop is dead)", n), true
+		},
 		// assumption table
 		func(c *Ctx, r *Report, s *panicSite, atoms []Atom) (string, bool) {
 			reason, ok := assumedSites[fnName(s.fn)+"|"+s.key]
